@@ -226,6 +226,7 @@ SHAPES = {
     "host-only-serial-read-as-value": "mon = SerialMonitor(9600)\nx = mon.read('host')\ny = mon.read(emit='host')\nz = mon.read()\nmon.read('host')\nmon.write(x + y + z)\n",
     "animate-inside-helper": "lcd = LCD(i2c_addr=0x27)\ndef show():\n    lcd.animate('scroll', 0, 'hello', speed_ms=100, loop=True)\nshow()\nwhile True:\n    sleep(5)\n",
     "for-variable-read-after-the-loop": "mon = SerialMonitor(9600)\nt = 0\nfor i in range(3):\n    t = t + i\nmon.write(i)\n",
+    "helper-respecialised-from-the-main-loop-with-a-loop-local-of-the-same-name": "mon = SerialMonitor(9600)\ndef scale(v):\n    r = v * 2\n    return r\nwhile True:\n    r = 1\n    a = scale(3)\n    g = 1.5\n    b = scale(g)\n    mon.write(a + b + r)\n    sleep(5)\n",
     "empty-script": "",
     "only-imports-and-sleep": "while True:\n    sleep(100)\n",
     "string-functions": "mon = SerialMonitor(9600)\ndef tag(s, n):\n    return s + str(n)\nt = tag('k', 3)\nmon.write(t)\nmon.write(len(t))\n",
